@@ -806,6 +806,20 @@ loop:
 					continue
 				}
 
+				// A request that is about to be accepted is made known before
+				// the closing state is looked at one last time. A GOAWAY sent
+				// from another goroutine (a connection error found by the
+				// read loop, the idle timer) marks the connection as closing
+				// and then reads the highest id accepted: either it sees this
+				// one, or the mark is seen here and the stream is refused. The
+				// GOAWAY can then never name an id below a request that runs.
+				if fr.Type() == FrameHeaders && fr.Stream() > sc.lastID &&
+					openStreams < int(sc.st.maxStreams) && !wasClosing {
+					atomic.StoreUint32(&sc.lastID, fr.Stream())
+
+					wasClosing = isClosing()
+				}
+
 				// if the client has more open streams than the maximum allowed OR
 				//   the connection is closing, then refuse the stream
 				if openStreams >= int(sc.st.maxStreams) || wasClosing {
@@ -869,7 +883,7 @@ loop:
 				// HEADERS frame and streams that are reserved using PUSH_PROMISE.
 				if fr.Type() == FrameHeaders {
 					openStreams++
-					sc.lastID = fr.Stream()
+					atomic.StoreUint32(&sc.lastID, fr.Stream())
 				}
 
 				sc.createStream(sc.c, fr.Type(), strm)
@@ -1079,7 +1093,15 @@ func (sc *serverConn) writeGoAway(strm uint32, code ErrorCode, message string) {
 
 	fr := AcquireFrameHeader()
 
-	ga.SetStream(strm)
+	// The last-stream-id is the highest request accepted, whatever stream the
+	// error was found on: the peer takes every request above it as not
+	// processed and is free to send it again (RFC 7540 6.8). The connection is
+	// marked as closing before the id is read, see the stream loop.
+	atomic.StoreInt32((*int32)(&sc.state), int32(connStateClosed))
+
+	last := atomic.LoadUint32(&sc.lastID)
+
+	ga.SetStream(last)
 	ga.SetCode(code)
 	ga.SetData([]byte(message))
 
@@ -1095,10 +1117,8 @@ func (sc *serverConn) writeGoAway(strm uint32, code ErrorCode, message string) {
 	sc.write(fr)
 
 	if strm != 0 {
-		atomic.StoreUint32(&sc.closeRef, sc.lastID)
+		atomic.StoreUint32(&sc.closeRef, last)
 	}
-
-	atomic.StoreInt32((*int32)(&sc.state), int32(connStateClosed))
 
 	if sc.debug {
 		sc.logger.Printf(
